@@ -167,6 +167,51 @@ def transient_limit(case, substep):
     return d_last, d_prev, float(np.max(np.abs(Ts)))
 
 
+def decay_bound(case):
+    """SrProps.C13.transient_converges on a real run: with a fixed-temperature wall, constant material and
+    time-constant data, |T_n - T_steady| <= rho^n * Phi * |T_0 - T_steady| with the explicit
+    rho = Phi / (Phi + 4 a dt),  Phi = r_ghost^2 + 2 + 2 dr rh(N)^2 sum_{m<N} 1/rh(m).
+    Returns a failure text or None (None also when the theorem does not cover the pairing)."""
+    import copy
+    if "fix" not in (case.inner, case.outer) or case.t / (case.nr - 1) >= case.r - case.t:
+        return None
+    receiver, thermal, materials = tc.mods()
+    cs = copy.deepcopy(case)
+    cs.steady = True
+    tube, mat, fluid = tc.build(cs)
+    Ts = np.array(thermal.FiniteDifferenceImplicitThermalSolver(rtol=1e-13, atol=tc.auto_atol(cs), miter=30, steady=True)
+                  .solve(tube, mat, fluid))[-1]
+    ct = copy.deepcopy(case)
+    ct.steady = False
+    a = float(case.mat_a[0])
+    dt = 0.5 * case.t ** 2 / a
+    nst = 8
+    ct.times = dt * np.arange(nst + 1)
+    for name in ("inner_data", "outer_data"):
+        d = getattr(ct, name)
+        kind = ct.inner if name.startswith("inner") else ct.outer
+        if d is not None and kind in ("fix", "flux", "conv"):
+            setattr(ct, name, np.repeat(d[:1], len(ct.times), axis=0))
+    tube, mat, fluid = tc.build(ct)
+    Tt = np.array(thermal.FiniteDifferenceImplicitThermalSolver(rtol=1e-13, atol=tc.auto_atol(ct), miter=30)
+                  .solve(tube, mat, fluid))
+    N, dr = case.nr, case.t / (case.nr - 1)
+    rr = lambda i: (case.r - case.t) + (i - 1) * dr          # ghosted radial index, real nodes 1..N
+    rh = lambda i: 0.5 * (rr(i) + rr(i + 1))
+    Phi = rr(N + 1) ** 2 + 2.0 + 2.0 * dr * rh(N) ** 2 * sum(1.0 / rh(m) for m in range(N))
+    rho = Phi / (Phi + 4.0 * a * dt)
+    B = float(np.max(np.abs(Tt[0] - Ts)))
+    for n in range(1, nst + 1):
+        e = float(np.max(np.abs(Tt[n] - Ts)))
+        if e > rho ** n * Phi * B * (1 + 1e-9) + 1e-9 * (1.0 + float(np.max(np.abs(Ts)))):
+            return ("step %d: |T - T_steady| = %.6g exceeds the proved bound rho^n Phi B = %.6g (rho = %.6f, Phi = %.4g)"
+                    % (n, e, rho ** n * Phi * B, rho, Phi))
+        # the first step from a field within B of the steady one is also non-expansive (transient_nonexpansive)
+        if e > B * (1 + 1e-9) + 1e-9 * (1.0 + float(np.max(np.abs(Ts)))):
+            return "step %d: |T - T_steady| = %.6g grew above its initial value %.6g" % (n, e, B)
+    return None
+
+
 def check_pairing(rng, ndim, ki, ko):
     bad = []
     c1 = make_case(rng, ndim, ki, ko, 9, True)
@@ -192,6 +237,9 @@ def check_pairing(rng, ndim, ki, ko):
     dl, dp, sc = transient_limit(c1, sub)
     if dl > 1e-5 * sc or dl > dp + 1e-7 * sc:
         bad.append("transient %s/%s %dD (substep %d): distance to steady solution %.3e (previous %.3e)" % (ki, ko, ndim, sub, dl, dp))
+    db = decay_bound(c1)
+    if db:
+        bad.append("transient %s/%s %dD: %s" % (ki, ko, ndim, db))
     small, _ = default_solver_small_signal(rng, ndim, ki, ko)
     bad += small
     return bad, c1, dict(e9=e1, e17=e2, ratio=ratio)
